@@ -203,3 +203,40 @@ func runCase(p *Prop, e *Env) (res Result) {
 	}
 	return res
 }
+
+// Sig hashes its parts into a short distinctness signature.
+func Sig(parts ...any) string {
+	var b []byte
+	for _, p := range parts {
+		b = append(b, fmt.Sprintf("%v|", p)...)
+	}
+	return fmt.Sprintf("%016x", HashStr(string(b)))
+}
+
+// TierN picks a case count by tier.
+func TierN(tier string, quick, thorough int) int {
+	if tier == "thorough" {
+		return thorough
+	}
+	return quick
+}
+
+// IsClosed reports without blocking whether ch is closed (or has a value ready).
+func IsClosed(ch <-chan struct{}) bool {
+	select {
+	case <-ch:
+		return true
+	default:
+		return false
+	}
+}
+
+// SortedStrings returns a sorted copy.
+func SortedStrings(s []string) []string {
+	o := append([]string(nil), s...)
+	sort.Strings(o)
+	return o
+}
+
+// WD is the default wait option set (60 s watchdog).
+var WD = WaitOpts{Watchdog: 60 * time.Second}
